@@ -102,8 +102,13 @@ def apply_event(s, ev):
         _, via, path, form, val = ev
         ft, _ = type_at(s.t, s.mv, path)
         arg = xt.to_py(ft, val) if form == "py" else xt.to_nd(ft, val, form) if form in cons.ND else None
-        if form == "xobj":
+        if form in ("xobj", "xobj-view"):
             arg = xt.construct(ft, xt.to_py(ft, val), _buffer=place.traced("np", 0))
+        elif form in ("xobj-same", "xobj-same-view"):
+            # the source lives in the SAME buffer as the object it is assigned into
+            arg = xt.construct(ft, xt.to_py(ft, val), _buffer=s.h._buffer)
+        if form.endswith("-view") and ft[0] != "U":
+            arg = xt.build(ft)._from_buffer(arg._buffer, arg._offset)  # a view, not the constructor's handle
         do_set(s, via, path, arg)
         s.mv = xt.set_path(s.mv, path, val)
         # plain data assigned over a reference creates a NEW target sized for the new value: the space "fixed at
@@ -196,7 +201,9 @@ def events(s, opts, depth_now):
             forms = ["py"]
             if ct[0] == "A" and ct[1][0] == "S":
                 forms.append("nd")
-            forms.append("xobj")
+            forms += ["xobj", "xobj-same"]
+            if depth_now == 0:
+                forms += ["xobj-view", "xobj-same-view"]
             if not xt.py_expressible(ct, val):
                 forms = [f for f in forms if f == "nd"]
             for form in forms:
